@@ -410,7 +410,7 @@ func checkConv(p *Prog, r *Report, pkg, prop string) {
 		ruleComparatorsSymmetric(p, r, map[string]bool{pkg: true}, map[string]int{"panos": 9, "nsx": 1}[pkg])
 		ruleSides(p, r, "R-SIDE", prop, map[string]bool{pkg: true}, map[string]int{"panos": 17, "nsx": 8}[pkg])
 	}
-	ruleAppendDiscipline(p, r, "R-KE", pkg, "diff.go", map[string]int{"panos": 16, "nsx": 20, "linux": 3}[pkg])
+	ruleAppendDiscipline(p, r, "R-KE", pkg, "diff.go", map[string]int{"panos": 8, "nsx": 10, "linux": 2}[pkg])
 	ruleCaseFolding(p, r, "R-FOLD", prop, map[string]bool{pkg: true})
 	ruleRegexpConsts(p, r, "R-RX", prop, 1)
 	if pkg == "panos" || pkg == "nsx" {
